@@ -81,9 +81,10 @@ async def _parse_only(sim, request):
     )
 
 
-def _reference(scenario, substituted):
-    request = dict(scenario["requests"][0], op={"expr": substituted})
+def _reference(scenario, rid, substituted):
+    request = dict(next(r for r in scenario["requests"] if r["rid"] == rid), op={"expr": substituted})
     request.pop("fault", None)
+    request.pop("start", None)
     solo = dict(scenario, profile="zero", decisions={}, decisions_closed=False, requests=[request])
     solo.pop("_with_log", None)
     _, outcomes = run_requests(solo, _parse_only)
@@ -97,10 +98,7 @@ def flags_of(op):
 
 
 # --------------------------------------------------------------------------------------------------- generation
-def generate(seed, tier="quick"):
-    rnd = rng(seed, "c10")
-    cond_keys = [str(k) for k in rnd.sample(range(1, 1000), rnd.randint(2, 6))] + [str(rnd.randint(2000, 2499))]
-    package_keys = [f"{k}P" for k in rnd.sample(range(1, 1000), rnd.randint(2, 5))]
+def _gen_request(rnd, rid, cond_keys, package_keys):
     table = {}
     for key in package_keys:
         ast = gen_wellformed(rnd, rnd.randint(0, 2), cond_keys, package_keys, p_pkg=0.15, p_ub=0.2)
@@ -127,126 +125,161 @@ def generate(seed, tier="quick"):
     op["entry"] = entry
     if entry == "resolve":
         op["packages"], op["time"] = rnd.choice([(True, True), (True, True), (True, False), (False, True)])
-    used = [k for k in PACKAGE.findall(op["expr"])]
-    used_keys = list(dict.fromkeys(k for k, _ in used))
+    used_keys = list(dict.fromkeys(k for k, _ in PACKAGE.findall(op["expr"])))
     missing = None
     if used_keys and rnd.random() < 0.25:
         missing = rnd.choice(used_keys)
     cer_packages = {k: v for k, v in table.items() if k != missing}
-    request = {"rid": "r0", "op": op, "cer": make_cer("r0", packages=cer_packages), "table": table, "missing": missing}
+    return {"rid": rid, "op": op, "cer": make_cer(rid, packages=cer_packages), "missing": missing}
+
+
+def generate(seed, tier="quick"):
+    rnd = rng(seed, "c10")
+    cond_keys = [str(k) for k in rnd.sample(range(1, 1000), rnd.randint(2, 6))] + [str(rnd.randint(2000, 2499))]
+    package_keys = [f"{k}P" for k in rnd.sample(range(1, 1000), rnd.randint(2, 5))]
+    n_requests = rnd.choice([1, 1, 1, 2, 2, 3])
+    requests = [_gen_request(rnd, f"r{i}", cond_keys, package_keys) for i in range(n_requests)]
+    # the same process serves several callers with *different* package tables: one after the other, or at once
+    sequential = rnd.random() < 0.5
+    for index, request in enumerate(requests):
+        request["start"] = index * 1_000_000 if sequential else rnd.choice([0, 0, 1, 3])
+        if index and rnd.random() < 0.4:  # same expression, other table
+            request["op"] = clone(requests[0]["op"])
+            used = list(dict.fromkeys(k for k, _ in PACKAGE.findall(request["op"]["expr"])))
+            request["missing"] = next((k for k in used if k not in request["cer"]["packages"]), None)
     world = {"flavour": "cer" if rnd.random() < 0.3 else "sim", "rc_keys": [], "fc_keys": [], "hint_keys": []}
     profile = rnd.choice([p for p in PROFILES if p != "zero"] * 3 + ["zero"])
-    return {"property": PROP_ID, "seed": seed, "profile": profile, "world": world, "requests": [request]}
+    return {"property": PROP_ID, "seed": seed, "profile": profile, "world": world, "requests": requests}
 
 
 def summarise(scenario):
-    request = scenario["requests"][0]
-    op = request["op"]
-    return {
-        "seed": scenario["seed"],
-        "profile": scenario["profile"],
-        "flavour": scenario["world"]["flavour"],
-        "entry": {k: op[k] for k in ("entry", "packages", "time") if k in op},
-        "expr": op["expr"],
-        "packages": request["cer"]["packages"],
-        "missing": request.get("missing"),
-    }
+    out = {"seed": scenario["seed"], "profile": scenario["profile"], "flavour": scenario["world"]["flavour"], "requests": []}
+    for request in scenario["requests"]:
+        op = request["op"]
+        out["requests"].append({
+            "rid": request["rid"],
+            "start": request.get("start", 0),
+            "entry": {k: op[k] for k in ("entry", "packages", "time") if k in op},
+            "expr": op["expr"],
+            "packages": request["cer"]["packages"],
+            "missing": request.get("missing"),
+        })
+    return out
 
 
 # ------------------------------------------------------------------------------------------------------ oracle
 def execute(scenario):
-    request = scenario["requests"][0]
-    op = request["op"]
-    do_packages, do_time = flags_of(op)
-    used = list(dict.fromkeys(k for k, _ in PACKAGE.findall(op["expr"])))
-    available = request["cer"]["packages"]
-    expect_missing = do_packages and any(k not in available for k in used)
-    reference = None
-    if not expect_missing:
-        substituted = substitute(op["expr"], available, do_packages, do_time)
-        reference = pristine(_reference, scenario, substituted)
+    plans = {}
+    for request in scenario["requests"]:
+        op = request["op"]
+        do_packages, do_time = flags_of(op)
+        used = list(dict.fromkeys(k for k, _ in PACKAGE.findall(op["expr"])))
+        available = request["cer"]["packages"]
+        expect_missing = do_packages and any(k not in available for k in used)
+        reference, substituted = None, None
+        if not expect_missing:
+            substituted = substitute(op["expr"], available, do_packages, do_time)
+            reference = pristine(_reference, scenario, request["rid"], substituted)
+            if "ok" not in reference:
+                # the substituted text must itself be well-formed; if not, the generator (not ahbicht) is at fault
+                raise RuntimeError(f"reference parse failed for {substituted!r}")
+        plans[request["rid"]] = (expect_missing, reference, substituted, used, available)
     try:
         sim, outcomes = run_requests(scenario, do_op)
     except LIVENESS_ERRORS as error:
         return liveness_verdict(error, scenario)
     verdict = base_verdict(sim, scenario)
-    outcome = strip_msg(outcomes.get("r0", {"missing": True}))
-    verdict["observed"], verdict["completed"] = 1, 1 if "ok" in outcome else 0
+    verdict["observed"] = len(scenario["requests"])
+    verdict["completed"] = sum(1 for o in outcomes.values() if "ok" in o)
     n_lookups = sum(1 for entry in sim.log if entry[2] == "start" and entry[4] == "pkg")
     verdict["probes"]["package_lookups"] = n_lookups
-    if expect_missing:
-        sim.count_fault("F4_unknown_package")
-        verdict["faults"] = dict(sim.fault_counts)
-        verdict["nontrivial"] = verdict["nontrivial"] or n_lookups >= 2
-        if outcome.get("exc") != "NotImplementedError":
+    verdict["probes"]["requests"] = len(scenario["requests"])
+    for request in scenario["requests"]:
+        rid, op = request["rid"], request["op"]
+        expect_missing, reference, substituted, used, available = plans[rid]
+        outcome = strip_msg(outcomes.get(rid, {"missing": True}))
+        if expect_missing:
+            sim.count_fault("F4_unknown_package")
+            verdict["faults"] = dict(sim.fault_counts)
+            verdict["nontrivial"] = verdict["nontrivial"] or n_lookups >= 2
+            if outcome.get("exc") != "NotImplementedError":
+                fail(
+                    verdict,
+                    "unknown-package-not-reported",
+                    f"{rid}: {op['expr']} with table {available} (missing {[k for k in used if k not in available]}): "
+                    f"expected NotImplementedError, got {dumps(outcome)[:500]}",
+                )
+            continue
+        if outcome != reference:
             fail(
                 verdict,
-                "unknown-package-not-reported",
-                f"{op['expr']} with table {available} (missing {[k for k in used if k not in available]}): expected "
-                f"NotImplementedError, got {dumps(outcome)[:500]}",
+                f"tree-differs-from-textual-substitution:{op['entry']}",
+                f"{rid}: {op['expr']!r} with {available}: got {dumps(outcome)[:600]} expected tree of "
+                f"{substituted!r} = {dumps(reference)[:600]}",
             )
-        return verdict
-    if "ok" not in reference:
-        # the substituted text must itself be well-formed; if not, the generator (not ahbicht) is at fault
-        raise RuntimeError(f"reference parse failed for {substitute(op['expr'], available, do_packages, do_time)!r}")
-    if outcome != reference:
-        fail(
-            verdict,
-            f"tree-differs-from-textual-substitution:{op['entry']}",
-            f"{op['expr']!r} with {available}: got {dumps(outcome)[:600]} expected tree of "
-            f"{substitute(op['expr'], available, do_packages, do_time)!r} = {dumps(reference)[:600]}",
-        )
     return verdict
 
 
 # ------------------------------------------------------------------------------------------------------ shrink
 def size(scenario):
-    op = scenario["requests"][0]["op"]
-    total = ast_size(to_tuple(op["ast"])) if op.get("ast") else 0
-    total += sum(ast_size(to_tuple(a)) for _, a in op.get("parts", []) if a)
-    total += len(scenario["requests"][0]["cer"]["packages"])
+    total = 5 * len(scenario["requests"])
+    for request in scenario["requests"]:
+        op = request["op"]
+        total += ast_size(to_tuple(op["ast"])) if op.get("ast") else 0
+        total += sum(ast_size(to_tuple(a)) for _, a in op.get("parts", []) if a)
+        total += len(request["cer"]["packages"])
     total += sum(1 for v in (scenario.get("decisions") or {}).values() if v[0] != "n")
     return total
 
 
-def _with_op(scenario, op):
+def _with_op(scenario, index, op):
     candidate = clone(scenario)
-    candidate["requests"][0]["op"] = op
+    candidate["requests"][index]["op"] = op
     return candidate
 
 
 def shrink(scenario):
-    request = scenario["requests"][0]
-    op = request["op"]
-    if op.get("ast"):
-        for smaller in shrink_ast(to_tuple(op["ast"])):
-            yield _with_op(scenario, dict(op, ast=smaller, expr=render(smaller)))
-    if op.get("parts"):
-        parts = [(i, to_tuple(a)) for i, a in op["parts"]]
-        if len(parts) > 1:
-            for drop in range(len(parts)):
-                remaining = parts[:drop] + parts[drop + 1 :]
-                if any(a is None for _, a in remaining[:-1]) or (len(remaining) == 1 and remaining[0][1] is None):
+    requests = scenario["requests"]
+    if len(requests) > 1:
+        for index in range(len(requests)):
+            candidate = clone(scenario)
+            del candidate["requests"][index]
+            yield candidate
+    for index, request in enumerate(requests):
+        if request.get("start"):
+            candidate = clone(scenario)
+            candidate["requests"][index]["start"] = 0
+            yield candidate
+        op = request["op"]
+        if op.get("ast"):
+            for smaller in shrink_ast(to_tuple(op["ast"])):
+                yield _with_op(scenario, index, dict(op, ast=smaller, expr=render(smaller)))
+        if op.get("parts"):
+            parts = [(i, to_tuple(a)) for i, a in op["parts"]]
+            if len(parts) > 1:
+                for drop in range(len(parts)):
+                    remaining = parts[:drop] + parts[drop + 1 :]
+                    if any(a is None for _, a in remaining[:-1]) or (len(remaining) == 1 and remaining[0][1] is None):
+                        continue
+                    yield _with_op(scenario, index, dict(op, parts=remaining, expr=render_ahb(remaining)))
+            for pindex, (indicator, ast) in enumerate(parts):
+                if ast is None:
                     continue
-                yield _with_op(scenario, dict(op, parts=remaining, expr=render_ahb(remaining)))
-        for pindex, (indicator, ast) in enumerate(parts):
-            if ast is None:
-                continue
-            for smaller in shrink_ast(ast):
-                new_parts = parts[:pindex] + [(indicator, smaller)] + parts[pindex + 1 :]
-                yield _with_op(scenario, dict(op, parts=new_parts, expr=render_ahb(new_parts)))
-    # simpler package expressions
-    packages = request["cer"]["packages"]
-    used = set(k for k, _ in PACKAGE.findall(op["expr"]))
-    for key in list(packages):
-        if key not in used:
-            candidate = clone(scenario)
-            del candidate["requests"][0]["cer"]["packages"][key]
-            yield candidate
-        elif packages[key] != "[1]":
-            candidate = clone(scenario)
-            candidate["requests"][0]["cer"]["packages"][key] = "[1]"
-            yield candidate
+                for smaller in shrink_ast(ast):
+                    new_parts = parts[:pindex] + [(indicator, smaller)] + parts[pindex + 1 :]
+                    yield _with_op(scenario, index, dict(op, parts=new_parts, expr=render_ahb(new_parts)))
+        # simpler package expressions
+        packages = request["cer"]["packages"]
+        used = set(k for k, _ in PACKAGE.findall(op["expr"]))
+        for key in list(packages):
+            if key not in used:
+                candidate = clone(scenario)
+                del candidate["requests"][index]["cer"]["packages"][key]
+                yield candidate
+            elif packages[key] not in ("[1]", "[2]"):
+                candidate = clone(scenario)
+                candidate["requests"][index]["cer"]["packages"][key] = "[1]" if index % 2 == 0 else "[2]"
+                yield candidate
     if scenario["world"].get("flavour") == "cer":
         yield dict(scenario, world=dict(scenario["world"], flavour="sim"))
     yield from shrink_decisions(scenario)
